@@ -6,7 +6,7 @@ Open Scope Z_scope.
 
 (* ---------- Part 1: complete behaviour of the two repaired shapes of order ---------- *)
 
-(* kind 1: build, encode, then open/write/close (JsonResource.save) *)
+(* kind 1: build, encode, then open/write/flush/close (JsonResource.save) *)
 Lemma kind1_behaviour j order fault old :
   order_kind order = 1%nat ->
   run_save j order fault old =
@@ -16,14 +16,17 @@ Proof.
   repeat (destruct order as [|[] order]; try discriminate).
   intros _. unfold run_save. simpl.
   destruct (hits_build j fault); simpl; [reflexivity|].
-  destruct (hits_encode j fault); reflexivity.
+  destruct (hits_encode j fault); simpl; [reflexivity|].
+  destruct (j_own j); reflexivity.
 Qed.
 
-(* kind 2: build, open, write (serialising), close (XMIResource.save) *)
+(* kind 2: traversal, namespace step, assembly, open, write (serialising), flush, close
+   (XMIResource.save) *)
 Lemma kind2_behaviour j order fault old :
   order_kind order = 2%nat ->
   run_save j order fault old =
     if hits_build j fault then (Raised, old)
+    else if hits_ns j fault then (Raised, old)
     else if hits_encode j fault then (Raised, Some [])
     else (Done, Some (j_new j)).
 Proof.
@@ -31,7 +34,9 @@ Proof.
   repeat (destruct order as [|[] order]; try discriminate).
   intros _. unfold run_save. simpl.
   destruct (hits_build j fault); simpl; [reflexivity|].
-  destruct (hits_encode j fault); reflexivity.
+  destruct (hits_ns j fault); simpl; [reflexivity|].
+  destruct (hits_encode j fault); simpl; [reflexivity|].
+  destruct (j_own j); reflexivity.
 Qed.
 
 Lemma hits_encode_nenc0 j fault : j_nenc j = 0%nat -> hits_encode j fault = false.
@@ -52,7 +57,8 @@ Lemma kind2_failsafe j order fault old c :
   order_kind order = 2%nat -> j_nenc j = 0%nat -> run_save j order fault old = (Raised, c) -> c = old.
 Proof.
   intros K N. rewrite (kind2_behaviour j order fault old K), (hits_encode_nenc0 j fault N).
-  destruct (hits_build j fault); intros H; inversion H; reflexivity.
+  destruct (hits_build j fault); [intros H; inversion H; reflexivity|].
+  destruct (hits_ns j fault); intros H; inversion H; reflexivity.
 Qed.
 
 (* ---------- Part 2: ids and bytes ---------- *)
